@@ -200,7 +200,9 @@ Formats:
 
 	for _, m := range ms.Modules {
 		if mods[m.Name] == nil {
-			mods[m.Name] = m
+			// Of several loaded revisions, show the one the bare
+			// name denotes, not the one the map walk met first.
+			mods[m.Name] = ms.Modules[m.Name]
 			names = append(names, m.Name)
 		}
 	}
